@@ -917,6 +917,21 @@ func (e *Engine) checkSignatures() {
 			c.Stale = fmt.Sprintf("the contract header has %d parameters, the function has %d", len(names), len(params))
 			continue
 		}
+		if rl := c.Decl.Type.Results; rl != nil {
+			n := 0
+			for _, f := range rl.List {
+				if len(f.Names) == 0 {
+					n++
+				}
+				n += len(f.Names)
+			}
+			if n != fn.Signature.Results().Len() {
+				c.Stale = fmt.Sprintf("the contract header has %d results, the function has %d", n, fn.Signature.Results().Len())
+				continue
+			}
+		} else if fn.Signature.Results().Len() != 0 && (len(c.Ensures) > 0 || len(c.Requires) > 0) {
+			// (headers of safety-only contracts may omit the results)
+		}
 		for i, p := range params {
 			if names[i] != "_" && p.Name() != "_" && p.Name() != "" && names[i] != p.Name() {
 				c.Stale = fmt.Sprintf("parameter %d is called %s in the contract header and %s in the function", i+1, names[i], p.Name())
